@@ -9,6 +9,11 @@ for id in $IDS; do
   P="${id%%-*}"
   [ "$id" = "C07-2B" ] && P="C07,C15"
   [ "$id" = "C07-5A" ] && P="C07,C20"
+  [ "$id" = "C07-7A" ] && P="C07,C15"
+  [ "$id" = "C01-7A" ] && P="C01,C02"
+  [ "$id" = "C01-7B" ] && P="C01,C02"
+  [ "$id" = "C14-7A" ] && P="C14,C05"
+  [ "$id" = "C03-7B" ] && P="C03,C05"
   out="$(tools/run_mutant.sh "seeded/$id/patch.diff" "$P" quick 2>&1)"
   if echo "$out" | grep -q '^KILLED'; then echo "$id $(echo "$out" | grep '^KILLED' | head -1 | cut -c1-200)"; else echo "$id $(echo "$out" | tail -1 | cut -c1-200)"; fi
 done
